@@ -24,7 +24,7 @@ const (
 )
 
 // concSizes gives scenarios per goroutine count and repetitions per scenario.
-func concSizes(r *ev.Run) (scenarios, reps int) { return r.N(60, 700), r.N(3, 4) }
+func concSizes(r *ev.Run) (scenarios, reps int) { return r.N(72, 800), r.N(3, 4) }
 
 // childMain is Run in the child: concurrent sub-workload only, no evidence.
 func childMain(r *ev.Run) {
